@@ -42,6 +42,12 @@ pub struct TFile {
     pub blocks: Vec<TBlock>,
     /// bit i set: the padding before block i gets an edit (outside every block)
     pub outside: u8,
+    /// how the file ends: 0 padding, newline in both states; 1 padding, only the new state ends with a newline;
+    /// 2 ends at the last end tag, only the new state ends with a newline (the end-tag line is "changed" by git);
+    /// 3 ends at the last end tag, no newline in either state; 4 ends at the last end tag, only the old state
+    /// ends with a newline; 5 padding, only the old state ends with a newline
+    #[serde(default)]
+    pub tail: u8,
 }
 
 #[derive(Clone, Debug, Serialize, Deserialize, Hash, PartialEq, Eq)]
@@ -238,8 +244,24 @@ pub fn render_file(fi: usize, f: &TFile) -> RenderedFile {
         let end_line = new.len();
         extents.push(Extent { name, tag_line, end_line, selected: classes & (INSIDE | TAG) != 0, content_modified: classes & INSIDE != 0 });
     }
-    pad(&mut new, &mut old, f.outside & 0x80 != 0);
-    RenderedFile { path, new: new.join("\n") + "\n", old: old.join("\n") + "\n", extents, k1_excluded }
+    // a file that ends in a one-line block keeps its padding: a newline-only change of that line would touch tag and content at once
+    let last_one_line = f.blocks.last().is_some_and(|b| h.block.is_some() && b.layout % 4 == 2);
+    let tail = match f.tail % 6 {
+        2 if last_one_line => 1,
+        3 if last_one_line => 0,
+        4 if last_one_line => 5,
+        t => t,
+    };
+    if !matches!(tail, 2 | 3 | 4) {
+        pad(&mut new, &mut old, f.outside & 0x80 != 0);
+    }
+    let (old_nl, new_nl) = match tail {
+        0 => (true, true),
+        1 | 2 => (false, true),
+        3 => (false, false),
+        _ => (true, false),
+    };
+    RenderedFile { path, new: new.join("\n") + if new_nl { "\n" } else { "" }, old: old.join("\n") + if old_nl { "\n" } else { "" }, extents, k1_excluded }
 }
 
 fn in_extents<'a>(d: &Diag, files: &'a [RenderedFile]) -> Option<&'a Extent> {
@@ -402,7 +424,7 @@ pub fn block_strategy() -> BoxedStrategy<TBlock> {
 }
 
 pub fn case_strategy() -> BoxedStrategy<TouchCase> {
-    let file = (0u8..5, proptest::collection::vec(block_strategy(), 2..8), any::<u8>()).prop_map(|(host, blocks, outside)| TFile { host, blocks, outside });
+    let file = (0u8..5, proptest::collection::vec(block_strategy(), 2..8), any::<u8>(), prop_oneof![3 => Just(0u8), 3 => 1u8..6]).prop_map(|(host, blocks, outside, tail)| TFile { host, blocks, outside, tail });
     (proptest::collection::vec(file, 1..4), 0u8..11, prop_oneof![2 => Just(0u8), 1 => 1u8..8]).prop_map(|(files, unified, globs)| TouchCase { files, unified, globs }).boxed()
 }
 
@@ -428,6 +450,10 @@ pub const TEMPLATES: &[&str] = &[
 
 #[derive(Clone, Copy, Debug, PartialEq, Eq)]
 pub enum Region {
+    /// text of the start tag's comment before `<block` (from the line start)
+    BeforeTag,
+    /// text of the start tag's comment after the tag's `>` (up to and including the closing delimiter)
+    AfterTag,
     TagValue,
     Content,
     EndTail,
@@ -437,14 +463,17 @@ pub enum Region {
 /// Regions of a template: (byte range, region). The old line is what gets edited — the new line (the one
 /// blockwatch parses) is always the intact template — so every byte can be swept: the whole start tag
 /// `<block …>` (tag-only), the content between the comments (inside), the whole end-tag comment from its
-/// opening delimiter to its closing one (neither) and the code after it (neither). Only the text of the
-/// start tag's comment around the tag is left out (unspecified by the statement).
+/// opening delimiter to its closing one (neither), the code after it (neither) and the text of the start
+/// tag's comment around the tag (neither: it is not part of the tag and not content); only a deletion
+/// directly adjoining the tag's `<` or `>` is left out (which neighbour a removed character "touches" is not stated).
 pub fn regions(t: &str) -> Vec<(usize, usize, Region)> {
     let mut out = vec![];
     let tag_s = t.find("<block").unwrap();
     let c1 = t.find("*/").unwrap() + 2;
     let tag_e = t[..c1].rfind('>').unwrap() + 1;
+    out.push((0, tag_s, Region::BeforeTag));
     out.push((tag_s, tag_e, Region::TagValue));
+    out.push((tag_e, c1, Region::AfterTag));
     let c2 = t[c1..].find("/*").unwrap() + c1;
     out.push((c1, c2, Region::Content));
     let c3 = t[c2..].find("*/").unwrap() + c2 + 2;
@@ -538,7 +567,7 @@ pub fn check_sweep(c: &SweepCase, probe: &Probe) -> Verdict {
     let want = match region {
         Region::TagValue => Some(false),
         Region::Content => Some(true),
-        Region::EndTail | Region::After => None,
+        Region::EndTail | Region::After | Region::BeforeTag | Region::AfterTag => None,
     };
     probe.class(&format!("region:{region:?}"));
     probe.class(["op:substitute", "op:insert", "op:delete"][(c.op % 3) as usize]);
@@ -578,10 +607,10 @@ pub fn check_sweep(c: &SweepCase, probe: &Probe) -> Verdict {
 }
 
 pub fn run(run: &mut Run) {
-    run.rule = "random: 1..3 files (js, sh, rs, py, c) x 2..7 uniquely named non-nested blocks (own-line line comments, own-line block comments, everything on one line, or a start tag spread over three lines with the edited attribute on the middle one) separated by 5 padding lines, each with 0..2 rules (keep-sorted, keep-unique, line-pattern, line-count, check-lua echo/nil; violating or not by chance) and a *set* of edit classes: inside (replace / insert / pure deletion / blanking of a content line), tag-only (substitute or insert a character of an attribute value, append an attribute), end-tag-only (text after </block>, whitespace in </ block >), plus edits of padding lines (outside) and untouched blocks; multi-byte text before the tag in 25%; real `git diff -U0..10`; optional path arguments. Oracle: (a) `list` in diff mode = exactly the inside/tag-only blocks with is_content_modified exactly for inside; (b) diff-mode diagnostics = full-scan diagnostics restricted to the selected blocks' extents, exit status accordingly; (c) with path arguments = full scan of those files + diff-mode result of the others. enumerated sweep: every byte position of the start tag, the content, the whole end-tag comment and the code after it in 3 one-line block templates (ASCII, multi-byte before the tag, indented) x {substitute, insert, delete}. Non-trivial (random) = a violating untouched block, a violating selected block and a tag-only block; (sweep) = a region boundary or a position where byte and character columns differ.".into();
+    run.rule = "random: 1..3 files (js, sh, rs, py, c) x 2..7 uniquely named non-nested blocks (own-line line comments, own-line block comments, everything on one line, or a start tag spread over three lines with the edited attribute on the middle one) separated by 5 padding lines, each with 0..2 rules (keep-sorted, keep-unique, line-pattern, line-count, check-lua echo/nil; violating or not by chance) and a *set* of edit classes: inside (replace / insert / pure deletion / blanking of a content line), tag-only (substitute or insert a character of an attribute value, append an attribute), end-tag-only (text after </block>, whitespace in </ block >), plus edits of padding lines (outside) and untouched blocks; multi-byte text before the tag in 25%; real `git diff -U0..10`; optional path arguments. Oracle: (a) `list` in diff mode = exactly the inside/tag-only blocks with is_content_modified exactly for inside; (b) diff-mode diagnostics = full-scan diagnostics restricted to the selected blocks' extents, exit status accordingly; (c) with path arguments = full scan of those files + diff-mode result of the others. enumerated sweep: every byte position of the start tag, the comment text before and after it, the content, the whole end-tag comment and the code after it in 3 one-line block templates (ASCII, multi-byte before the tag, indented) x {substitute, insert, delete}. Non-trivial (random) = a violating untouched block, a violating selected block and a tag-only block; (sweep) = a region boundary or a position where byte and character columns differ.".into();
     run.assumptions = vec![
         "pure line deletions are only generated where no earlier net line shift exists in the file (K1 excluded by construction, counted)".into(),
-        "the sweep edits the OLD line only (the parsed NEW line is always the intact template); text of the start tag's comment around the tag is unspecified and not swept".into(),
+        "the sweep edits the OLD line only (the parsed NEW line is always the intact template); a deletion directly adjoining the start tag's `<` or `>` is unspecified and not judged".into(),
     ];
     run.sentinel("K4", "sweep", check_sweep);
     run.enumerate("sweep", sweep_cases(), Some("every byte position of the safe regions of 3 inline templates x 3 character edits"), check_sweep);
